@@ -509,6 +509,20 @@ fn cross_of(r: &Reader) -> Value {
     let mut v: Value = serde_json::from_str(&txt).unwrap_or(Value::Null);
     rename_walk(&mut v, &order);
     sdk::blank_keys(&mut v, &BLANK);
+    // time-stamp assertions map manifest labels to RFC 3161 tokens: every request gets a fresh token
+    if let Some(ms) = v["manifests"].as_object_mut() {
+        for (_, m) in ms.iter_mut() {
+            if let Some(asserts) = m["assertions"].as_array_mut() {
+                for a in asserts.iter_mut() {
+                    if a["label"].as_str().map(|l| l.starts_with("c2pa.time-stamp")).unwrap_or(false) {
+                        if let Some(d) = a["data"].as_object_mut() {
+                            d.values_mut().for_each(|t| *t = Value::String("<token>".into()));
+                        }
+                    }
+                }
+            }
+        }
+    }
     let mut verdict = sdk::verdict(r);
     for c in verdict.codes.iter_mut() {
         *c = rename_urns(c, &order);
